@@ -8,10 +8,10 @@ Import ListNotations.
 Open Scope Z_scope.
 
 (* ---- a quantum reads a finite prefix of the driver's script ---------------------------- *)
-Lemma drv_local : forall t cn c O o b l O', drv t cn c O = (o, b, l, O') ->
-  forall x, drv t cn c (fst (pop O) :: x) = (o, b, l, x).
+Lemma drv_local : forall t cn c O o v b l O', drv t cn c O = (o, v, b, l, O') ->
+  forall x, drv t cn c (fst (pop O) :: x) = (o, v, b, l, x).
 Proof.
-  unfold drv. intros t cn c O o b l O' H x. destruct (pop O) as [r O1]. cbn in *.
+  unfold drv. intros t cn c O o v b l O' H x. destruct (pop O) as [r O1]. cbn in *.
   inversion H; subst. reflexivity.
 Qed.
 
@@ -20,22 +20,22 @@ Lemma do_stmt_local : forall t cn k m sees O r l O1 c,
   exists rs, forall x, do_stmt t cn k m sees (rs ++ x) = (r, l, x, c).
 Proof.
   intros t cn k m sees O r l O1 c H. unfold do_stmt in H. destruct m.
-  - destruct (drv t cn (CStmt k KExec) O) as [[[o b] l0] o1] eqn:E. inversion H; subst.
-    exists [fst (pop O)]. intros x. unfold do_stmt. cbn [app]. rewrite (drv_local _ _ _ _ _ _ _ _ E x). reflexivity.
-  - destruct (drv t cn (CStmt k KQuery) O) as [[[o b] l0] o1] eqn:E. inversion H; subst.
-    exists [fst (pop O)]. intros x. unfold do_stmt. cbn [app]. rewrite (drv_local _ _ _ _ _ _ _ _ E x). reflexivity.
-  - destruct (drv t cn (CStmt k KPrepare) O) as [[[o b] l0] o1] eqn:E.
+  - destruct (drv t cn (CStmt k KExec) O) as [[[[o v] b] l0] o1] eqn:E. inversion H; subst.
+    exists [fst (pop O)]. intros x. unfold do_stmt. cbn [app]. rewrite (drv_local _ _ _ _ _ _ _ _ _ E x). reflexivity.
+  - destruct (drv t cn (CStmt k KQuery) O) as [[[[o v] b] l0] o1] eqn:E. inversion H; subst.
+    exists [fst (pop O)]. intros x. unfold do_stmt. cbn [app]. rewrite (drv_local _ _ _ _ _ _ _ _ _ E x). reflexivity.
+  - destruct (drv t cn (CStmt k KPrepare) O) as [[[[o v] b] l0] o1] eqn:E.
     destruct o.
     + destruct (sees && b) eqn:Esb.
       * inversion H; subst. exists [fst (pop O)]. intros x. unfold do_stmt. cbn [app].
-        rewrite (drv_local _ _ _ _ _ _ _ _ E x), Esb. reflexivity.
-      * destruct (drv t cn (CStmt k KStmtExec) o1) as [[[o2 b2] l2] o2'] eqn:E2. inversion H; subst.
+        rewrite (drv_local _ _ _ _ _ _ _ _ _ E x), Esb. reflexivity.
+      * destruct (drv t cn (CStmt k KStmtExec) o1) as [[[[o2 v2] b2] l2] o2'] eqn:E2. inversion H; subst.
         exists [fst (pop O); fst (pop o1)]. intros x. unfold do_stmt. cbn [app].
-        rewrite (drv_local _ _ _ _ _ _ _ _ E (fst (pop o1) :: x)), Esb, (drv_local _ _ _ _ _ _ _ _ E2 x). reflexivity.
+        rewrite (drv_local _ _ _ _ _ _ _ _ _ E (fst (pop o1) :: x)), Esb, (drv_local _ _ _ _ _ _ _ _ _ E2 x). reflexivity.
     + inversion H; subst. exists [fst (pop O)]. intros x. unfold do_stmt. cbn [app].
-      rewrite (drv_local _ _ _ _ _ _ _ _ E x). reflexivity.
+      rewrite (drv_local _ _ _ _ _ _ _ _ _ E x). reflexivity.
     + inversion H; subst. exists [fst (pop O)]. intros x. unfold do_stmt. cbn [app].
-      rewrite (drv_local _ _ _ _ _ _ _ _ E x). reflexivity.
+      rewrite (drv_local _ _ _ _ _ _ _ _ _ E x). reflexivity.
 Qed.
 
 Lemma do_selfend_local : forall t cn k commit canc done O res,
@@ -45,9 +45,9 @@ Lemma do_selfend_local : forall t cn k commit canc done O res,
 Proof.
   intros t cn k commit canc done O res H. unfold do_selfend in H. destruct done.
   - subst res. exists []. intros x. reflexivity.
-  - destruct (drv t cn (if commit then CCommit else CRollback) O) as [[[o b] l0] o1] eqn:E.
+  - destruct (drv t cn (if commit then CCommit else CRollback) O) as [[[[o v] b] l0] o1] eqn:E.
     exists [fst (pop O)]. intros x. unfold do_selfend. cbn [app].
-    rewrite (drv_local _ _ _ _ _ _ _ _ E x). subst res. destruct o; reflexivity.
+    rewrite (drv_local _ _ _ _ _ _ _ _ _ E x). subst res. destruct o; reflexivity.
 Qed.
 
 Lemma do_action_local : forall t sc k a canc done O r l O1 c1 d1 lk,
@@ -84,58 +84,97 @@ Lemma finish_local : forall rf g t sc done o O st' l O1 lk,
 Proof.
   intros rf g t sc done o O st' l O1 lk H. unfold finish_with, try_end in H. destruct done.
   - inversion H; subst. exists []. intros x. reflexivity.
-  - destruct (drv t (sconn sc) (end_call_of g o) O) as [[[o0 b] l0] o1] eqn:E. inversion H; subst.
+  - destruct (drv t (sconn sc) (end_call_of g o) O) as [[[[o0 v0] b] l0] o1] eqn:E. inversion H; subst.
     exists [fst (pop O)]. intros x. unfold finish_with, try_end. cbn [app].
-    rewrite (drv_local _ _ _ _ _ _ _ _ E x). reflexivity.
+    rewrite (drv_local _ _ _ _ _ _ _ _ _ E x). reflexivity.
+Qed.
+
+Lemma begin_all_local : forall fuel t rc cn O o v c l O1,
+  begin_all fuel t rc cn O = (o, v, c, l, O1) ->
+  exists rs, forall x, begin_all fuel t rc cn (rs ++ x) = (o, v, c, l, x).
+Proof.
+  induction fuel as [|fuel IH]; intros t rc cn O o v c l O1 H; cbn [begin_all] in H.
+  - exists [fst (pop O)]. intros x. cbn [begin_all app]. apply (drv_local _ _ _ _ _ _ _ _ _ H x).
+  - destruct (retried (fst (pop O))) eqn:Er.
+    + destruct (begin_all fuel t (tl rc) cn (snd (pop O))) as [[[[o2 v2] c2] l2] o2'] eqn:E2.
+      destruct (IH _ _ _ _ _ _ _ _ _ E2) as [rs Hrs]. exists (fst (pop O) :: rs). intros x.
+      cbn [begin_all app pop fst snd]. rewrite Er, (Hrs x). inversion H; subst. reflexivity.
+    + exists [fst (pop O)]. intros x. cbn [begin_all app pop fst snd]. rewrite Er.
+      apply (drv_local _ _ _ _ _ _ _ _ _ H x).
 Qed.
 
 Lemma tstep_local : forall rf g t sc st O st' l O1 lk,
   tstep_with rf g t sc st O = (st', l, O1, lk) ->
   exists rs, forall x, tstep_with rf g t sc st (rs ++ x) = (st', l, x, lk).
 Proof.
-  intros rf g t sc st O st' l O1 lk H. destruct st as [|k rest canc done|r].
-  - cbn [tstep_with] in H.
+  intros rf g t sc st O st' l O1 lk H. unfold tstep_with in *. destruct st as [|k rest canc done|r].
+  - cbn [tstep_fin] in H.
     destruct (sdead sc) eqn:Hd.
-    { inversion H; subst. exists []. intros x. cbn [tstep_with app]. rewrite Hd. reflexivity. }
+    { inversion H; subst. exists []. intros x. cbn [tstep_fin app]. rewrite Hd. reflexivity. }
     destruct (negb (sbrk sc)) eqn:Hb.
-    { inversion H; subst. exists []. intros x. cbn [tstep_with app]. rewrite Hd, Hb. reflexivity. }
+    { inversion H; subst. exists []. intros x. cbn [tstep_fin app]. rewrite Hd, Hb. reflexivity. }
     destruct (negb (sopen sc)) eqn:Ho.
-    { inversion H; subst. exists []. intros x. cbn [tstep_with app]. rewrite Hd, Hb, Ho. reflexivity. }
-    destruct (drv t (sconn sc) CBegin O) as [[[o c] l0] o1] eqn:E.
-    exists [fst (pop O)]. intros x. cbn [tstep_with app]. rewrite Hd, Hb, Ho, (drv_local _ _ _ _ _ _ _ _ E x).
+    { inversion H; subst. exists []. intros x. cbn [tstep_fin app]. rewrite Hd, Hb, Ho. reflexivity. }
+    destruct (begin_all max_begin_retries t (sretry sc) (sconn sc) O) as [[[[o v] c] l0] o1] eqn:E.
+    destruct (begin_all_local _ _ _ _ _ _ _ _ _ _ E) as [rs Hrs].
+    exists rs. intros x. cbn [tstep_fin]. rewrite Hd, Hb, Ho, (Hrs x).
     destruct o; inversion H; subst; reflexivity.
-  - destruct rest as [|s rest]; cbn [tstep_with] in H.
-    + destruct (finish_local _ _ _ _ _ _ _ _ _ _ _ H) as [rs Hrs]. exists rs. intros x. cbn [tstep_with]. apply Hrs.
+  - destruct rest as [|s rest]; cbn [tstep_fin] in H.
+    + destruct (finish_local _ _ _ _ _ _ _ _ _ _ _ H) as [rs Hrs]. exists rs. intros x. cbn [tstep_fin]. apply Hrs.
     + destruct (do_action t sc k (sact s) canc done O) as [[[[[r l1] o1] canc1] done1] leak1] eqn:Ea.
       destruct (do_action_local _ _ _ _ _ _ _ _ _ _ _ _ _ Ea) as [rs1 H1].
       destruct (react r (sonfail s)) as [o|] eqn:Er.
       * destruct (finish_with rf g t sc done1 o o1) as [[[st2 l2] o2] leak2] eqn:Ef. inversion H; subst.
         destruct (finish_local _ _ _ _ _ _ _ _ _ _ _ Ef) as [rs2 H2].
-        exists (rs1 ++ rs2). intros x. cbn [tstep_with]. rewrite <- app_assoc, (H1 (rs2 ++ x)), Er, (H2 x). reflexivity.
-      * inversion H; subst. exists rs1. intros x. cbn [tstep_with]. rewrite (H1 x), Er. reflexivity.
+        exists (rs1 ++ rs2). intros x. cbn [tstep_fin]. rewrite <- app_assoc, (H1 (rs2 ++ x)), Er, (H2 x). reflexivity.
+      * inversion H; subst. exists rs1. intros x. cbn [tstep_fin]. rewrite (H1 x), Er. reflexivity.
   - cbn in H. inversion H; subst. exists []. intros x. reflexivity.
 Qed.
 
-(* the calls of a quantum are made on behalf of its transaction, on its connection (in any state) *)
-Lemma tstep_own : forall rf g u sc st O st' l O' lk,
-  tstep_with rf g u sc st O = (st', l, O', lk) -> own u (sconn sc) l.
+(* every driver call of a quantum is made while its transaction is running (in any state) *)
+Definition tagged (u : nat) (l : list logent) : Prop := Forall (fun e => etid e = u) l.
+
+Lemma own_tagged : forall u cn l, own u cn l -> tagged u l.
+Proof. intros u cn l H. eapply Forall_impl; [|exact H]. cbn beta. tauto. Qed.
+
+Lemma tstep_tagged : forall rf g u sc st O st' l O' lk,
+  tstep_with rf g u sc st O = (st', l, O', lk) -> tagged u l.
 Proof.
-  intros rf g u sc st O st' l O' lk Es.
-  destruct st as [|k rest canc done|r]; cbn [tstep_with] in Es.
+  intros rf g u sc st O st' l O' lk Es. unfold tstep_with in Es.
+  destruct st as [|k rest canc done|r]; cbn [tstep_fin] in Es.
   - destruct (sdead sc); [inversion Es; constructor|].
     destruct (negb (sbrk sc)); [inversion Es; constructor|].
     destruct (negb (sopen sc)); [inversion Es; constructor|].
-    destruct (drv u (sconn sc) CBegin O) as [[[o c] l0] o1] eqn:E.
-    destruct (drv_own_follows _ _ _ _ _ _ _ _ E) as [Ho _]. destruct o; inversion Es; subst; exact Ho.
+    destruct (begin_all max_begin_retries u (sretry sc) (sconn sc) O) as [[[[o v] c] l0] o1] eqn:E.
+    destruct (begin_all_spec _ _ _ _ _ _ _ _ _ _ E) as (R & -> & HR & _).
+    assert (Ht : tagged u (R ++ [mkEnt u (sconn sc) CBegin o v])).
+    { apply Forall_app. split; [eapply Forall_impl; [|exact HR]; cbn beta; tauto | repeat constructor]. }
+    destruct o; inversion Es; subst; exact Ht.
   - destruct rest as [|s rest].
-    + destruct (finish_spec _ _ _ _ _ _ _ _ _ _ _ Es) as (Ho & _). exact Ho.
+    + destruct (finish_spec _ _ _ _ _ _ _ _ _ _ _ Es) as (Ho & _). eapply own_tagged; exact Ho.
     + destruct (do_action u sc k (sact s) canc done O) as [[[[[r l1] o1] canc1] done1] leak1] eqn:Ea.
       destruct (do_action_spec _ _ _ _ _ _ _ _ _ _ _ _ _ Ea) as (Ho1 & _).
       destruct (react r (sonfail s)).
       * destruct (finish_with rf g u sc done1 b o1) as [[[st2 l2] o2] leak2] eqn:Ef. inversion Es; subst.
-        destruct (finish_spec _ _ _ _ _ _ _ _ _ _ _ Ef) as (Ho2 & _). apply own_app; assumption.
-      * inversion Es; subst. exact Ho1.
+        destruct (finish_spec _ _ _ _ _ _ _ _ _ _ _ Ef) as (Ho2 & _).
+        apply Forall_app. split; eapply own_tagged; eassumption.
+      * inversion Es; subst. eapply own_tagged; exact Ho1.
   - inversion Es. constructor.
+Qed.
+
+Lemma calls_of_app : forall t l1 l2, calls_of t (l1 ++ l2) = calls_of t l1 ++ calls_of t l2.
+Proof. intros. unfold calls_of. apply filter_app. Qed.
+
+Lemma calls_of_tagged : forall t l, tagged t l -> calls_of t l = l.
+Proof.
+  intros t l H. unfold calls_of. induction H as [|e l He _ IH]; [reflexivity|].
+  cbn. rewrite He, Nat.eqb_refl, IH. reflexivity.
+Qed.
+
+Lemma calls_of_other : forall t t' l, tagged t l -> t' <> t -> calls_of t' l = [].
+Proof.
+  intros t t' l H Hne. unfold calls_of. induction H as [|e l He _ IH]; [reflexivity|].
+  cbn. rewrite He. destruct (Nat.eqb t t') eqn:E; [apply Nat.eqb_eq in E; congruence | exact IH].
 Qed.
 
 (* ---- the world ---------------------------------------------------------------------- *)
@@ -143,7 +182,7 @@ Definition state_of (w : world) (t : nat) : option tstate := option_map tst (nth
 
 Lemma wstep_other : forall rf g w u t, u <> t ->
   state_of (wstep_with rf g w u) t = state_of w t /\
-  proj t (wlog (wstep_with rf g w u)) = proj t (wlog w) /\
+  calls_of t (wlog (wstep_with rf g w u)) = calls_of t (wlog w) /\
   map tsc (wthreads (wstep_with rf g w u)) = map tsc (wthreads w).
 Proof.
   intros rf g w u t Hne. unfold wstep_with, wstep_gen.
@@ -152,8 +191,8 @@ Proof.
   cbn [wthreads wlog]. unfold state_of. cbn [wthreads].
   rewrite (nth_error_set_nth_neq _ _ _ _ _ Hne). split; [reflexivity|]. split.
   - (* entries of the step belong to u *)
-    pose proof (tstep_own _ _ _ _ _ _ _ _ _ _ Es) as Hown.
-    rewrite proj_app, (proj_other _ _ _ _ Hown (not_eq_sym Hne)), app_nil_r. reflexivity.
+    pose proof (tstep_tagged _ _ _ _ _ _ _ _ _ _ Es) as Hown.
+    rewrite calls_of_app, (calls_of_other _ _ _ Hown (not_eq_sym Hne)), app_nil_r. reflexivity.
   - apply (map_set_nth _ _ tsc u _ th _ Hu). reflexivity.
 Qed.
 
@@ -192,7 +231,7 @@ Theorem solo_l : forall rf g scs sched orc t,
   exists orc_t, forall x,
     let W := run_with rf g (init scs orc) sched in
     let W1 := run_with rf g (init scs (orc_t ++ x)) (only t sched) in
-    state_of W1 t = state_of W t /\ wlog W1 = proj t (wlog W) /\ worc W1 = x.
+    state_of W1 t = state_of W t /\ wlog W1 = calls_of t (wlog W) /\ worc W1 = x.
 Proof.
   intros rf g scs sched orc t. induction sched as [|u sched IH] using rev_ind.
   - exists []. intros x. cbn. auto.
@@ -203,7 +242,7 @@ Proof.
       destruct (nth_error (wthreads W) t) as [th|] eqn:Ht.
       * destruct (tstep_with rf g t (tsc th) (tst th) (worc W)) as [[[st' l] orc'] leak] eqn:Es.
         destruct (tstep_local _ _ _ _ _ _ _ _ _ _ Es) as [rs Hrs].
-        pose proof (tstep_own _ _ _ _ _ _ _ _ _ _ Es) as Hown.
+        pose proof (tstep_tagged _ _ _ _ _ _ _ _ _ _ Es) as Hown.
         exists (orc_t ++ rs). intros x. cbn zeta. rewrite !run_snoc, <- app_assoc. fold W.
         destruct (IH (rs ++ x)) as (Hst & Hlog & Horc). cbn zeta in Hst, Hlog, Horc. fold W in Hst, Hlog.
         set (W1 := run_with rf g (init scs (orc_t ++ rs ++ x)) (only t sched)) in *.
@@ -215,7 +254,7 @@ Proof.
         cbn [wthreads wlog worc]. unfold state_of. cbn [wthreads].
         rewrite (nth_error_set_nth_eq _ _ _ _ _ Ht1), (nth_error_set_nth_eq _ _ _ _ _ Ht). cbn.
         split; [reflexivity|]. split; [|reflexivity].
-        rewrite proj_app, (proj_own _ _ _ Hown), Hlog. reflexivity.
+        rewrite calls_of_app, (calls_of_tagged _ _ Hown), Hlog. reflexivity.
       * exists orc_t. intros x. cbn zeta. rewrite !run_snoc. fold W.
         destruct (IH x) as (Hst & Hlog & Horc). cbn zeta in Hst, Hlog, Horc. fold W in Hst, Hlog.
         set (W1 := run_with rf g (init scs (orc_t ++ x)) (only t sched)) in *.
